@@ -803,10 +803,10 @@ Proof.
       rewrite Eo in Hs. simpl in Hs. split; [reflexivity|]. split; [exact Hs|]. apply (mA_unsub st M s p Eo).
 Qed.
 
-Lemma unsubscribe_Inv : forall st s pat, Inv st -> Inv (unsubscribe st s pat).
+Lemma unsubscribe_by_Inv : forall st s keep_sub, Inv st -> Inv (unsubscribe_by st s keep_sub).
 Proof.
-  intros st s pat (M & H6 & Hp). unfold unsubscribe.
-  set (l := filter (fun q => negb (pattern_eqb pat q)) (st_subs st s)).
+  intros st s keep_sub (M & H6 & Hp). unfold unsubscribe_by.
+  set (l := filter keep_sub (st_subs st s)).
   assert (Hl : forall p, subscribed_in l p = true -> subscribed st s p = true).
   { intros p H. unfold subscribed_in in H. apply existsb_exists in H. destruct H as [x [Hx Hm]].
     apply filter_In in Hx. unfold subscribed, subscribed_in. apply existsb_exists. exists x. split; [apply Hx | exact Hm]. }
@@ -964,7 +964,8 @@ Proof.
   - apply fold_Mid; [|exact HM]. intros st' q HM'. apply prim_reorder_Mid; assumption.
   - apply fold_Mid; [|exact HM]. intros st' v HM'. apply prim_remove_node_Mid; exact HM'.
   - apply Inv_Mid. apply subscribe_Inv; assumption.
-  - apply Inv_Mid. apply unsubscribe_Inv; assumption.
+  - apply Inv_Mid. apply unsubscribe_by_Inv; assumption.
+  - apply Inv_Mid. apply unsubscribe_by_Inv; assumption.
   - apply Inv_Mid. apply getdata_Inv; assumption.
   - destruct HM as [M H6]. split; [apply MidA_set_refl; exact M | apply I6_set_refl; exact H6].
   - exact HM.
